@@ -84,9 +84,96 @@ def det_audit():
     return obligations, failures
 
 
+_LIB = {}
+
+
+def lib():
+    """a small cell library made of generators (results cached by the library, one object per process): used BOTH by the
+    earlier unrelated work and by the designs under test, as shared IP would be"""
+    if _LIB:
+        return _LIB
+    import hdl21 as h
+
+    @h.paramclass
+    class LP:
+        k = h.Param(dtype=int, desc="k", default=1)
+
+    @h.bundle
+    class Pair2:
+        a = h.Signal()
+        b = h.Signal(width=2)
+
+    @h.generator
+    def LibInv(p: LP) -> h.Module:
+        m = h.Module()
+        m.i, m.o, m.vdd, m.vss = h.Input(), h.Output(), h.Inout(), h.Inout()
+        m.n = h.Nmos(w=p.k * h.prefix.µ, l=1 * h.prefix.µ)(d=m.o, g=m.i, s=m.vss, b=m.vss)
+        m.p = h.Pmos(w=2 * p.k * h.prefix.µ, l=1 * h.prefix.µ)(d=m.o, g=m.i, s=m.vdd, b=m.vdd)
+        return m
+
+    @h.generator
+    def LibStage(p: LP) -> h.Module:
+        m = h.Module()
+        m.inp = Pair2(port=True)
+        m.out = Pair2(port=True)
+        m.r = h.R(r=p.k)(p=m.inp.a, n=m.out.a)
+        E = h.ExternalModule(name="LibW2", port_list=[h.Inout(name="x", width=2), h.Inout(name="y", width=2)], desc="", domain="lib")
+        m.e = E()(x=m.inp.b, y=m.out.b)
+        return m
+    _LIB.update(LibInv=LibInv, LibStage=LibStage, Pair2=Pair2)
+    return _LIB
+
+
 def extra_designs():
     """order-sensitive shapes: one connectable feeding several ports of one instance"""
     import hdl21 as h
+
+    def shared_inv_compiled():
+        # a library cell that earlier work in the process may have elaborated / exported already, compiled to a PDK here
+        import hdl21.pdk.sample_pdk as sp
+        Inv = lib()["LibInv"](k=1)
+        T = h.Module(name="SharedInvTop")
+        T.a, T.b, T.vdd, T.vss = h.Signals(4)
+        T.x = Inv(i=T.a, o=T.b, vdd=T.vdd, vss=T.vss)
+        T.y = lib()["LibInv"](k=2)(i=T.b, o=T.a, vdd=T.vdd, vss=T.vss)
+        sp.compile(T)
+        return T
+    yield ("det/history/shared-cell/compiled-here", shared_inv_compiled)
+
+    def shared_stage_by_portref():
+        # a library cell with bundle-valued ports, wired to its twin through port references by a NEW parent
+        Stage = lib()["LibStage"](k=1)
+        T = h.Module(name="SharedStageTop")
+        T.first = lib()["Pair2"]()
+        T.s1 = Stage(inp=T.first)
+        T.s2 = Stage(inp=T.s1.out)
+        T.s3 = lib()["LibStage"](k=2)(inp=T.s2.out)
+        T.last = lib()["Pair2"]()
+        T.s3.out = T.last
+        return T
+    yield ("det/history/shared-cell/bundle-ports-by-portref", shared_stage_by_portref)
+
+    def set_valued_params():
+        # generator parameters holding sets (no order of their own): the generated names must not follow iteration order
+        from typing import FrozenSet
+
+        @h.paramclass
+        class TagP:
+            tags = h.Param(dtype=FrozenSet[str], desc="tags", default=frozenset())
+            nums = h.Param(dtype=FrozenSet[int], desc="nums", default=frozenset())
+
+        @h.generator
+        def Tagged(p: TagP) -> h.Module:
+            m = h.Module()
+            m.a = h.Port()
+            m.r = h.R(r=len(p.tags) + 1)(p=m.a, n=m.a)
+            return m
+        T = h.Module(name="TaggedTop")
+        T.s = h.Signal()
+        T.x = Tagged(tags=frozenset({"alpha", "beta", "gamma", "delta", "epsilon"}))(a=T.s)
+        T.y = Tagged(tags=frozenset({"vdd", "vss"}), nums=frozenset({3, 1, 2 ** 40, -7}))(a=T.s)
+        return T
+    yield ("det/history/set-valued-generator-params", set_valued_params)
 
     def multi_bundle(n):
         def b():
@@ -246,6 +333,20 @@ def unrelated_work(rnd, rounds):
         m = h.Module()
         m.a = h.Port()
         return m
+    # shared library cells used by earlier designs: elaborated, exported, netlisted (never compiled) there
+    for rd in range(min(rounds, 2)):
+        try:
+            L = lib()
+            U = h.Module(name=f"LibUser{rd}")
+            U.a, U.b, U.vdd, U.vss = h.Signals(4)
+            U.p = L["Pair2"]()
+            U.q = L["Pair2"]()
+            for k in (1, 2):
+                U.add(L["LibInv"](k=k)(i=U.a, o=U.b, vdd=U.vdd, vss=U.vss), name=f"inv{k}")
+                U.add(L["LibStage"](k=k)(inp=U.p, out=U.q), name=f"st{k}")
+            h.netlist(U, io.StringIO(), fmt="spice") if rd else h.to_proto(U)
+        except Exception:
+            pass
     for rd in range(rounds):
         # a session's worth of generator calls (parameter sweeps): a different number in every process
         for k in range(rnd.randint(0, 900)):
